@@ -1017,6 +1017,12 @@ type regCase struct {
 // ValidatorRegistrationCorpus: a wrong signature is refused and registers nothing; a nil function registers an
 // entry without a validator; a second registration for a type is refused and leaves the first one in place.
 func (x *Runner) ValidatorRegistrationCorpus() {
+	if p := hx.Safely(x.validatorRegistrationCorpus); p != "" {
+		x.R.Fail("validator-register", "the fixed RegisterValidator corpus panicked: "+clip(p, 400), map[string]string{"oracle": "validator-register", "trigger": "corpus-panic"})
+	}
+}
+
+func (x *Runner) validatorRegistrationCorpus() {
 	fail := func(trigger, format string, args ...any) {
 		x.R.Fail("validator-register", fmt.Sprintf(format, args...), map[string]string{"oracle": "validator-register", "trigger": trigger})
 	}
@@ -1047,12 +1053,12 @@ func (x *Runner) ValidatorRegistrationCorpus() {
 		var err error
 		p := hx.Safely(func() { err = api.RegisterValidator(c.obj, c.fn) })
 		if p != "" {
-			fail("panic:"+c.name, "RegisterValidator panicked on a malformed validator (%s): %s", c.name, p)
+			fail("panic", "RegisterValidator panicked on a malformed validator (%s): %s", c.name, p)
 
 			continue
 		}
 		if err == nil {
-			fail("accepted:"+c.name, "RegisterValidator accepted a malformed validator (%s)", c.name)
+			fail("accepted-malformed", "RegisterValidator accepted a malformed validator (%s)", c.name)
 
 			continue
 		}
@@ -1070,12 +1076,12 @@ func (x *Runner) ValidatorRegistrationCorpus() {
 			continue
 		}
 		if err2 != nil {
-			fail("left-entry:"+c.name, "a refused RegisterValidator (%s) left an entry behind: the well-formed registration failed: %v", c.name, err2)
+			fail("refused-left-entry", "a refused RegisterValidator (%s) left an entry behind: the well-formed registration failed: %v", c.name, err2)
 
 			continue
 		}
 		if _, err := api.Encode(ctxBg, top, serix.WithValidation()); err != nil || calls != 1 {
-			fail("not-called-after:"+c.name, "after a refused RegisterValidator (%s) the well-formed validator was called %d times, want 1 (err=%v)", c.name, calls, err)
+			fail("refused-then-not-called", "after a refused RegisterValidator (%s) the well-formed validator was called %d times, want 1 (err=%v)", c.name, calls, err)
 		}
 	}
 	// nil function values: accepted, the entry has no validator; the type counts as registered
@@ -1083,17 +1089,17 @@ func (x *Runner) ValidatorRegistrationCorpus() {
 		x.R.Count("validators:register-corpus")
 		api := baseAPI()
 		if err := api.RegisterValidator(c.obj, c.fn); err != nil {
-			fail("nil-fn-refused:"+c.name, "RegisterValidator refused a nil validator function (%s): %v", c.name, err)
+			fail("nil-fn-refused", "RegisterValidator refused a nil validator function (%s): %v", c.name, err)
 
 			continue
 		}
 		if err := api.RegisterValidator(CInner{}, func(context.Context, CInner) error { return nil }); err == nil {
-			fail("nil-fn-overwritten:"+c.name, "a second RegisterValidator for a type registered with a nil function (%s) was accepted", c.name)
+			fail("nil-fn-overwritten", "a second RegisterValidator for a type registered with a nil function (%s) was accepted", c.name)
 		}
 		b1, err1 := api.Encode(ctxBg, top, serix.WithValidation())
 		b2, err2 := baseAPI().Encode(ctxBg, top, serix.WithValidation())
 		if err1 != nil || err2 != nil || !bytes.Equal(b1, b2) {
-			fail("nil-fn-encode:"+c.name, "validated Encode with a nil validator registered (%s): %x %v vs %x %v", c.name, b1, err1, b2, err2)
+			fail("nil-fn-encode", "validated Encode with a nil validator registered (%s): %x %v vs %x %v", c.name, b1, err1, b2, err2)
 		}
 	}
 	// duplicates: refused, the first validator stays in place; pointer and value registrations are independent
